@@ -27,6 +27,9 @@
 //	                    dimension (disabled / small / default / above 256 / changed while the node runs)
 //	                    and metrics that are asked for more fields / tag keys / series than the limits
 //	                    and than 256; refusals are judged for consistency
+//	worker_test.go      part (b), worker class (TestWorkerHistory): the PRODUCTION memdb metadata / index workers
+//	                    (rows through MemoryDatabase.WriteRow, flush requests through Notify(FlushEvent)), one worker
+//	                    held at a seam in the middle of a row while flush requests arrive, crash images at quiet points
 //	regression_test.go, limits_regression_test.go
 //	                    plain reproductions of the defects found
 package c09
